@@ -26,6 +26,7 @@ import dataclasses
 
 from mc import afx
 from mc import family as FAM
+from mc import treehash
 from mc import specs as S
 from mc.explorer import Result, pmap
 
@@ -224,6 +225,7 @@ def _warm(item):
 
 def run(ctx):
     afx.serial()
+    treehash.tree_hash()  # pin the cache key in the parent: all forked workers of this run share one cache directory
     _Q[0] = ctx.quick
     sids = spec_list(ctx)
     tree = make_tree(sids)
